@@ -213,6 +213,13 @@ pub fn standard_entry_ordered(blocks: &[BlockSpec], extra_header_128: usize, gap
 
 /// A complete *texture* dat entry: `header` stored raw, then every mip's blocks.
 pub fn texture_entry(header: &[u8], mips: &[Vec<BlockSpec>], extra_header_128: usize) -> Vec<u8> {
+    texture_entry_with_gaps(header, mips, extra_header_128, &[])
+}
+
+/// `gaps[i]`: 128-byte units of unrelated bytes in front of mip level i (i >= 1) - every level record carries its own offset,
+/// so a packer may align its levels as it likes.
+pub fn texture_entry_with_gaps(header: &[u8], mips: &[Vec<BlockSpec>], extra_header_128: usize, gaps: &[usize]) -> Vec<u8> {
+    let gap = |i: usize| if i >= 1 { gaps.get(i).copied().unwrap_or(0) * 128 } else { 0 };
     let nblocks: usize = mips.iter().map(|m| m.len()).sum();
     let raw_total: usize = header.len() + mips.iter().flatten().map(|b| b.data.len()).sum::<usize>();
     let hdr_len = 24 + 20 * mips.len() + 2 * nblocks;
@@ -227,6 +234,7 @@ pub fn texture_entry(header: &[u8], mips: &[Vec<BlockSpec>], extra_header_128: u
     for (i, m) in mips.iter().enumerate() {
         let csize: usize = enc[i].iter().map(|e| e.len()).sum();
         let dsize: usize = m.iter().map(|b| b.data.len()).sum();
+        off += gap(i);
         w.u32(off as u32).u32(csize as u32).u32(dsize as u32).u32(first as u32).u32(m.len() as u32);
         off += csize;
         first += m.len();
@@ -238,7 +246,8 @@ pub fn texture_entry(header: &[u8], mips: &[Vec<BlockSpec>], extra_header_128: u
     }
     w.pad_to(hsize);
     w.bytes(header);
-    for m in &enc {
+    for (i, m) in enc.iter().enumerate() {
+        w.fill(gap(i), 0xA5);
         for e in m {
             w.bytes(e);
         }
